@@ -39,6 +39,7 @@ type Clause struct {
 	Name   string // ghost name
 	Line   int
 	used   bool
+	Assumed bool // "assume ..." clause: used at call sites, never verified (listed as trusted)
 }
 
 type FuncContract struct {
@@ -131,9 +132,17 @@ func parseContracts(path string) (*ContractFile, error) {
 			return nil, fmt.Errorf("line %d: clause outside func: %s", no, t)
 		}
 		c := &Clause{Line: no, Loop: -1}
+		if strings.HasPrefix(t, "assume ") {
+			c.Assumed = true
+			t = strings.TrimSpace(strings.TrimPrefix(t, "assume "))
+		}
 		if m := propTagRe.FindStringSubmatch(t); m != nil {
 			c.Props = strings.Split(m[1], ",")
 			t = t[len(m[0]):]
+		}
+		if strings.HasPrefix(t, "assume ") {
+			c.Assumed = true
+			t = strings.TrimSpace(strings.TrimPrefix(t, "assume "))
 		}
 		word, rest := t, ""
 		if j := strings.IndexAny(t, " \t"); j >= 0 {
@@ -248,6 +257,18 @@ func (fc *FuncContract) has(kind string) bool {
 		}
 	}
 	return false
+}
+
+// own returns the clauses of a kind that are to be VERIFIED against the body
+// (assumed clauses excluded).
+func (fc *FuncContract) own(kind string) []*Clause {
+	var out []*Clause
+	for _, c := range fc.clauses(kind) {
+		if !c.Assumed {
+			out = append(out, c)
+		}
+	}
+	return out
 }
 
 func (fc *FuncContract) clauses(kind string) []*Clause {
